@@ -133,6 +133,8 @@ static void runCase(uint64_t caseSeed) {
             M.tags.push_back("force.MobilityLinearDamper");
         }
     }
+    // sensitivity self-test only (never set by the check): a non-conservative, external mobility force
+    if (std::getenv("C11_SELFTEST_INJECT")) Force::MobilityConstantForce(M.forces, M.bodies[1], MobilizerUIndex(0), std::atof(std::getenv("C11_SELFTEST_INJECT")));
     if (scn == 3 && r.below(3) == 0) { Force::GlobalDamper(M.forces, matter, r.range(0.1, 1)); M.tags.push_back("force.GlobalDamper"); }
     if (scn == 4) {
         // each Free body is held to its parent by a stiff bushing (small deflections, far from the Euler singularity)
@@ -201,7 +203,7 @@ static void runCase(uint64_t caseSeed) {
         vh::Line in0 = vh::I(kind); in0.s(std::to_string((unsigned long long)caseSeed)).i(scn).i(integ).i(accExp).i(0).emit();
         vh::O("ke").d(0).emit(); { vh::Line L = vh::O("mom"); for (int k = 0; k < 6; ++k) L.d(0); L.emit(); }
         if (kind != "energyC") vh::O("power").d(0).emit();
-        if (kind == "energyF") { vh::Line L = vh::O("momrate"); for (int k = 0; k < 6; ++k) L.d(0); L.emit(); }
+        if (kind != "energyC") { vh::Line L = vh::O("momrate"); for (int k = 0; k < 6; ++k) L.d(0); L.emit(); }
         vh::D("skipped.noMobilities");
         return;
     }
@@ -250,7 +252,7 @@ static void runCase(uint64_t caseSeed) {
         in.i(0).emit();
         vh::O("ke").d(0).emit(); { vh::Line L = vh::O("mom"); for (int k = 0; k < 6; ++k) L.d(0); L.emit(); }
         if (kind != "energyC") vh::O("power").d(0).emit();
-        if (kind == "energyF") { vh::Line L = vh::O("momrate"); for (int k = 0; k < 6; ++k) L.d(0); L.emit(); }
+        if (kind != "energyC") { vh::Line L = vh::O("momrate"); for (int k = 0; k < 6; ++k) L.d(0); L.emit(); }
         vh::D(std::string("skipped.") + (ncons < 0 ? "projectFailed" : (failWhat == "stepLimit" ? std::string("stepLimit.") : std::string("integratorThrew.")) + INTEG_NAMES[integ]));
         if (std::getenv("C11_TRACE")) std::fprintf(stderr, "  threw: %s\n", failWhat.c_str());
         return;
@@ -274,12 +276,22 @@ static void runCase(uint64_t caseSeed) {
         appliedAboutG += SpatialVec(F[0] + rO % F[1], F[1]);
     }
     for (int j = 0; j < fs.getNU(); ++j) appliedPower += fm[j] * fs.getU()[j];
+    if (kind == "energy") {   // ground-attached: add the reactions of the base mobilizers (momentum_rate theorem)
+        Vector_<SpatialVec> reac; matter.calcMobilizerReactionForces(fs, reac);
+        for (int i = 1; i <= nb; ++i) {
+            const MobilizedBody& mb = M.bodies[i];
+            if (mb.getParentMobilizedBody().getMobilizedBodyIndex() != 0) continue;
+            const SpatialVec& R = reac[mb.getMobilizedBodyIndex()];      // applied to the body at its M frame origin, in Ground
+            const Vec3 pM = mb.findStationLocationInGround(fs, mb.getOutboardFrame(fs).p());
+            appliedAboutG += SpatialVec(R[0] + pM % R[1], R[1]);
+        }
+    }
     in.emit();
     std::printf("T 1e-8 1e-9\n");
     vh::O("ke").d(sys.calcKineticEnergy(fs)).emit();
     { SpatialVec P = matter.calcSystemMomentumAboutGroundOrigin(fs); vh::Line L = vh::O("mom"); L.v(P[0], 3).v(P[1], 3); L.emit(); }
     if (kind != "energyC") vh::O("power").d(appliedPower).emit();
-    if (kind == "energyF") { vh::Line L = vh::O("momrate"); L.v(appliedAboutG[0], 3).v(appliedAboutG[1], 3); L.emit(); }
+    if (kind != "energyC") { vh::Line L = vh::O("momrate"); L.v(appliedAboutG[0], 3).v(appliedAboutG[1], 3); L.emit(); }
 
     // ---- distribution
     vh::D("scenario." + std::to_string(scn)); vh::D(std::string("integ.") + INTEG_NAMES[integ]); vh::D("acc.1e-" + std::to_string(accExp));
